@@ -644,6 +644,154 @@ var specLin = pbt.Register(pbt.Spec[ConcCase]{
 
 func TestLinearizability(t *testing.T) { specLin.Check(t) }
 
+// ---- 3b. drain stress: many iterations around an almost empty structure ------------------------------------
+
+type StressCase struct {
+	Type      string   `json:"type"`
+	Producers int      `json:"producers"`
+	Consumers []string `json:"consumers"` // removal method each consumer goroutine uses
+	N         int      `json:"n"`         // insertions per producer
+}
+
+func removalOps(ct *ctype) []string {
+	var out []string
+	for _, o := range pointOpNames(ct) {
+		if o == "RemoveFirst" || o == "RemoveLast" || o == "GetNoWait" || o == "Clear" {
+			out = append(out, o)
+		}
+	}
+	return out
+}
+
+func insertOp(ct *ctype) string {
+	self := reflect.ValueOf(ct.New())
+	for _, n := range []string{"Put", "AddLast", "Put1"} {
+		if self.MethodByName(n).IsValid() {
+			return n
+		}
+	}
+	return ""
+}
+
+func stressTypes() []string {
+	var out []string
+	for _, ct := range ctypes {
+		if insertOp(ct) != "" && len(removalOps(ct)) >= 2 {
+			out = append(out, ct.Name)
+		}
+	}
+	return out
+}
+
+func runStress(c StressCase) *pbt.Result {
+	ct := ctypeByName[c.Type]
+	self := reflect.ValueOf(ct.New())
+	ins := self.MethodByName(insertOp(ct))
+	var wg, pwg sync.WaitGroup
+	var gate atomic.Int32
+	var producersDone atomic.Bool
+	removed := make([][]string, len(c.Consumers))
+	var panics sync.Map
+	for p := 0; p < c.Producers; p++ {
+		wg.Add(1)
+		pwg.Add(1)
+		go func(p int) {
+			defer wg.Done()
+			defer pwg.Done()
+			for gate.Load() == 0 {
+			}
+			for i := 0; i < c.N; i++ {
+				id := 1 + p*c.N + i // unique key and value (>= 1: never a "none" value)
+				func() {
+					defer func() {
+						if r := recover(); r != nil {
+							panics.Store(fmt.Sprintf("%s: %v", insertOp(ct), r), true)
+						}
+					}()
+					ins.Call(callArgs(ins, id, id, self, ct))
+				}()
+			}
+		}(p)
+	}
+	for ci, m := range c.Consumers {
+		wg.Add(1)
+		go func(ci int, m string) {
+			defer wg.Done()
+			rm := self.MethodByName(m)
+			for gate.Load() == 0 {
+			}
+			idle := 0
+			for idle < 3 {
+				var out string
+				func() {
+					defer func() {
+						if r := recover(); r != nil {
+							panics.Store(fmt.Sprintf("%s: %v", m, r), true)
+						}
+					}()
+					out = render(rm.Call(nil))
+				}()
+				if m != "Clear" && out != "" && out != "0" && out != "nil" && out != "<nil>" {
+					removed[ci] = append(removed[ci], out)
+				}
+				if producersDone.Load() {
+					idle++
+				}
+			}
+		}(ci, m)
+	}
+	go func() { pwg.Wait(); producersDone.Store(true) }()
+	doneCh := make(chan struct{})
+	go func() { wg.Wait(); close(doneCh) }()
+	gate.Store(1)
+	select {
+	case <-doneCh:
+	case <-time.After(180 * time.Second):
+		return pbt.Fail("%s: drain stress did not finish within 180 s", c.Type)
+	}
+	var perr []string
+	panics.Range(func(k, v interface{}) bool { perr = append(perr, k.(string)); return true })
+	if len(perr) > 0 {
+		return pbt.Fail("%s: an operation panicked while other goroutines emptied the structure (no sequential order of the operations panics): %v", c.Type, perr)
+	}
+	seen := map[string]int{}
+	total := 0
+	for ci, list := range removed {
+		for _, v := range list {
+			if prev, dup := seen[v]; dup {
+				return pbt.Fail("%s: element %s was handed out twice (consumers %d and %d)", c.Type, v, prev, ci)
+			}
+			seen[v] = ci
+			total++
+		}
+	}
+	if total > c.Producers*c.N {
+		return pbt.Fail("%s: %d elements removed, only %d inserted", c.Type, total, c.Producers*c.N)
+	}
+	if err := structuralAudit(self, ct); err != nil {
+		return pbt.Fail("%s: %v", c.Type, err)
+	}
+	return &pbt.Result{NT: total >= 1 && len(c.Consumers) >= 2, Classes: []string{"type=" + c.Type}}
+}
+
+var specStress = pbt.Register(pbt.Spec[StressCase]{
+	Prop: "C10", Name: "drain-stress",
+	Rule:  "1-2 producer goroutines insert fresh unique elements while 2-4 consumer goroutines call RemoveFirst / RemoveLast / GetNoWait / Clear in a loop until the producers are done (hundreds of empty<->non-empty transitions per case); history invariants sound for any schedule: no operation panics, no element is handed out twice, not more elements removed than inserted, structural audit at the end; non-trivial = at least one element removed with >= 2 consumers; distinct by case",
+	Quick: 160, Thorough: 8000,
+	Draw: func(t *rapid.T) StressCase {
+		c := StressCase{Type: rapid.SampledFrom(stressTypes()).Draw(t, "type"), Producers: rapid.IntRange(1, 2).Draw(t, "producers"), N: rapid.IntRange(50, pbt.Pick(400, 1500)).Draw(t, "n")}
+		ops := removalOps(ctypeByName[c.Type])
+		nc := rapid.IntRange(2, 4).Draw(t, "consumers")
+		for i := 0; i < nc; i++ {
+			c.Consumers = append(c.Consumers, rapid.SampledFrom(ops).Draw(t, "rm"))
+		}
+		return c
+	},
+	Run: runStress,
+})
+
+func TestDrainStress(t *testing.T) { specStress.Check(t) }
+
 // ---- 2. race detector ---------------------------------------------------------------------------------------
 
 // The binary of this group is built with -race and started with GORACE=log_path=…; after every case the
